@@ -66,6 +66,23 @@ func Get(alg string, n int) *Key {
 	return k
 }
 
+// GetFile returns the key stored in the named fixture file (e.g. "rsa2049-1") for use with the named algorithm:
+// RSA moduli whose bit length is not a multiple of 8, larger moduli.
+func GetFile(alg, file string) *Key {
+	id := alg + "/" + file
+	if k, ok := cache[id]; ok {
+		return k
+	}
+	a, ok := algs[alg]
+	if !ok {
+		panic("unknown algorithm " + alg)
+	}
+	priv := load(file)
+	k := &Key{Name: id, File: file, Alg: a.alg, Priv: priv, Pub: priv.Public()}
+	cache[id] = k
+	return k
+}
+
 // Signer returns a go-cose signer for the key.
 func (k *Key) Signer() cose.Signer {
 	s, err := cose.NewSigner(k.Alg, k.Priv)
